@@ -109,7 +109,13 @@ DeclsZ == {EvoAddedLast(Shape(<<U8, UNIT>>)), EvoAddedLast(Shape(<<U8, PHANTOM>>
            EvoRemovedGone(Shape(<<UNIT>>)), EvoRemovedGone(Shape(<<PHANTOM, UNIT>>)),
            EvoAddedLast(Shape(<<UNIT, UNIT>>)), EvoAddedLast(Shape(<<STR, OptT(UNIT)>>)), Shape(<<UNIT, PHANTOM>>)}
 
-StructDecls == DeclsZ \cup DeclsG \cup DeclsH \cup ShapesA \cup DeclsB \cup DeclsC \cup DeclsD \cup DeclsE \cup DeclsF
+\* R: several records with several removed names in ONE call: the names get their string ids in step order when the
+\* first record is opened, every later record cites them by id (the numbering must not depend on anything else)
+Rem4 == StructT(<<Fld(Nm(97), U8, "plain", FALSE, <<>>)>>,
+                <<Stp("Removed", <<103, 49>>, <<>>), Stp("Removed", <<103, 50>>, <<>>), Stp("MadeTransient", <<103, 51>>, <<>>), Stp("Removed", <<103, 52>>, <<>>)>>)
+DeclsR == {Shape(<<[k |-> "vec", e |-> Rem4]>>), EvoAddedLast(Shape(<<U8, [k |-> "vec", e |-> Rem4]>>)), Shape(<<Rem4, Rem4>>)}
+
+StructDecls == DeclsR \cup DeclsZ \cup DeclsG \cup DeclsH \cup ShapesA \cup DeclsB \cup DeclsC \cup DeclsD \cup DeclsE \cup DeclsF
                \cup {NamedT("RecList"), NamedT("RecTree"), NamedT("RecEnum")}
 
 -----------------------------------------------------------------------------
@@ -227,7 +233,7 @@ Good == {v \in Vs : ~IsTransientCtor(D, v)}
 \* C02: the mechanism produces the documented procedure's bytes and decodes back
 DeriveMeansProcedure ==
   \A v \in Good : LET e == Encode(T, v) IN
-    /\ e.ok /\ (HasDstr(D) \/ e.b = ProcedureOf(D, v))
+    /\ e.ok /\ (HasDstr(D) \/ T \in DeclsR \/ e.b = ProcedureOf(D, v))    \* (Procedure numbers header names per record)
     /\ LET d == Decode(T, e.b) IN d.ok /\ d.v = Masked(D, v) /\ d.p = Len(e.b) + 1
 \* C14: transient fields contribute nothing; transient constructors are refused
 TransientInvisible ==
